@@ -31,6 +31,7 @@ class W:
     def __init__(self, fname):
         self.fname = fname
         self.acc = []
+        self.calls = []      # (callee or '<indirect:name>', mutex held) for x_c18_statics.py
         self.locked = False
 
     def emit(self, loc, write, atomic):
@@ -71,6 +72,12 @@ class W:
             callee = strip(n["inner"][0])
             name = callee.get("referencedDecl", {}).get("name") if callee["kind"] == "DeclRefExpr" else None
             args = n["inner"][1:]
+            if callee["kind"] == "DeclRefExpr" and callee.get("referencedDecl", {}).get("kind") != "FunctionDecl":
+                self.calls.append(("<indirect:%s>" % name, self.locked))
+            elif name is None:
+                self.calls.append(("<indirect:?>", self.locked))
+            elif name not in ATOMICS and name not in ("mtMtxLock", "mtMtxUnlock"):
+                self.calls.append((name, self.locked))
             if name in ATOMICS:
                 v = self.var_of(args[0])
                 if v == "oncePtr":
